@@ -214,6 +214,70 @@ class BufVal:
         return " + ".join("%s[%r:%r]" % x for x in self.segs) or "b''"
 
 
+class SliceVal:
+    def __init__(self, lo, hi, step=None):
+        self.lo, self.hi, self.step = lo, hi, step
+
+
+class LazyGen:
+    """A generator function's body run lazily: it executes in its own thread, strictly hand-in-hand with the
+    consumer (only one of the two ever runs), and stops at every yield until the next item is asked for.  So an
+    endless generator consumed by a loop that breaks behaves as in Python."""
+
+    def __init__(self, body):
+        import threading
+
+        self._body = body          # body(emit): runs the function body, calling emit(value) at each yield
+        self._resume = threading.Semaphore(0)
+        self._ready = threading.Semaphore(0)
+        self._box = None
+        self._thread = None
+        self._done = False
+
+    def _run(self):
+        self._resume.acquire()
+        try:
+            self._body(self._emit)
+            self._box = ("done", None)
+        except BaseException as e:  # NeedSplit, PyRaise, Undecided ... are re-raised in the consumer
+            self._box = ("exc", e)
+        self._ready.release()
+
+    def _emit(self, value):
+        self._box = ("item", value)
+        self._ready.release()
+        self._resume.acquire()
+
+    def __iter__(self):
+        return self
+
+    def __next__(self):
+        import threading
+
+        if self._done:
+            raise StopIteration
+        if self._thread is None:
+            threading.stack_size(256 * 1024 * 1024)
+            self._thread = threading.Thread(target=self._run, daemon=True)
+            self._thread.start()
+        self._resume.release()
+        self._ready.acquire()
+        kind, v = self._box
+        if kind == "item":
+            return v
+        self._done = True
+        if kind == "exc":
+            raise v
+        raise StopIteration
+
+
+class _YieldSink:
+    """What a generator body's yield writes to."""
+
+    def __init__(self, emit):
+        self.emit = emit
+
+
 class SetVal:
     def __init__(self, items=()):
         self.items = list(items)
@@ -840,13 +904,7 @@ class Interp:
             self.trace_calls.append(fn.short)
             is_gen = _own_yield(node)
             if is_gen:
-                out = Lst([])
-                env["__yield__"] = out
-                try:
-                    self.exec_block(node.body, env)
-                except _Return:
-                    pass
-                return IterVal(out.items)
+                return IterVal(self._lazy_generator(node.body, env))
             try:
                 self.exec_block(node.body, env)
             except _Return as r:
@@ -908,13 +966,7 @@ class Interp:
             if isinstance(n, ast.Lambda):
                 return self.eval(n.body, env)
             if _own_yield(n):
-                out = Lst([])
-                env["__yield__"] = out
-                try:
-                    self.exec_block(n.body, env)
-                except _Return:
-                    pass
-                return IterVal(out.items)
+                return IterVal(self._lazy_generator(n.body, env))
             try:
                 self.exec_block(n.body, env)
             except _Return as r:
@@ -1356,6 +1408,10 @@ class Interp:
             if attr in base.attrs:
                 return base.attrs[attr]
             raise PyRaise("AttributeError", node)
+        if isinstance(base, SliceVal):
+            if attr in ("start", "stop", "step"):
+                return {"start": base.lo, "stop": base.hi, "step": base.step}[attr]
+            raise PyRaise("AttributeError", node)
         if isinstance(base, ModuleVal):
             if base.mod is not None:
                 return self.global_name(base.mod, attr, node)
@@ -1440,6 +1496,21 @@ class Interp:
                 return base[lo:hi:st]
             raise Undecided("slice of %r" % (base,))
         k = self.eval(e.slice, env)
+        if isinstance(k, SliceVal):
+            if isinstance(base, BufVal):
+                if k.step is not None:
+                    raise Undecided("extended slice of a byte buffer")
+                return self._buf_slice(base, k.lo, k.hi, e)
+            lo = self.index(k.lo) if k.lo is not None else None
+            hi = self.index(k.hi) if k.hi is not None else None
+            st_ = self.index(k.step) if k.step is not None else None
+            if isinstance(base, Lst):
+                return Lst(base.items[lo:hi:st_])
+            if isinstance(base, Tup):
+                return Tup(base.items[lo:hi:st_])
+            if isinstance(base, str):
+                return base[lo:hi:st_]
+            raise Undecided("slice of %r" % (base,))
         if isinstance(base, (Lst, Tup)):
             i = self.index(k)
             try:
@@ -1819,12 +1890,25 @@ class Interp:
             kwargs[k.arg] = self.eval(k.value, env)
         return args, kwargs
 
+    def _lazy_generator(self, body, env):
+        def run(emit):
+            env["__yield__"] = _YieldSink(emit)
+            depth, frames = self.call_depth, list(self.__dict__.get("frames", []))
+            try:
+                self.exec_block(body, env)
+            except _Return:
+                pass
+            finally:
+                self.call_depth = depth
+        return LazyGen(run)
+
     def e_Yield(self, e, env):
-        env["__yield__"].items.append(self.eval(e.value, env) if e.value is not None else None)
+        env["__yield__"].emit(self.eval(e.value, env) if e.value is not None else None)
         return None
 
     def e_YieldFrom(self, e, env):
-        env["__yield__"].items.extend(self.iterate(self.eval(e.value, env)))
+        for x in self._lazy(self.eval(e.value, env)):
+            env["__yield__"].emit(x)
         return None
 
     # ---- builtins --------------------------------------------------------------
@@ -2205,6 +2289,16 @@ class Interp:
                 return self.binop(ops[nm](), args[0], args[1], node)
             cmps = {"lt": ast.Lt, "le": ast.LtE, "gt": ast.Gt, "ge": ast.GtE, "eq": ast.Eq, "ne": ast.NotEq}
             return self.compare(cmps[nm](), args[0], args[1], node)
+        if n == "slice":
+            a3 = list(args) + [None] * (3 - len(args))
+            if len(args) == 1:
+                return SliceVal(None, args[0], None)
+            return SliceVal(a3[0], a3[1], a3[2])
+        if n in ("operator.iadd", "operator.concat", "operator.iconcat"):
+            if isinstance(args[0], Lst) and isinstance(args[1], (Lst, Tup)) and n != "operator.concat":
+                args[0].items.extend(args[1].items)
+                return args[0]
+            return self.binop(ast.Add(), args[0], args[1], node)
         if n == "operator.methodcaller":
             nm, a0, k0 = args[0], list(args[1:]), dict(kwargs)
             return PyFunc(lambda I_, obj: I_.call_value(I_.getattr(obj, nm), a0, k0))
@@ -2507,6 +2601,14 @@ class Interp:
         raise Undecided("sort comparison of %r and %r" % (a, b))
 
     def _list_method(self, m, recv: Lst, args, kwargs, node):
+        if m == "join" and not recv.items:
+            # b"".join(chunks): byte strings are modelled as lists (or abstract buffers); joining concatenates them
+            parts = self.iterate(args[0])
+            if parts and all(isinstance(p_, BufVal) for p_ in parts):
+                return BufVal([sg for p_ in parts for sg in p_.segs])
+            if all(isinstance(p_, (Lst, Tup)) for p_ in parts):
+                return Lst([x for p_ in parts for x in p_.items])
+            raise Undecided("bytes.join over %r" % (parts,))
         if m == "append":
             recv.items.append(args[0])
             return None
@@ -2826,6 +2928,6 @@ EXT_CONSTS = {
 _BUILTIN_NAMES = {
     "len", "min", "max", "float", "int", "abs", "isinstance", "list", "tuple", "sorted", "reversed", "set", "enumerate",
     "zip", "range", "any", "all", "print", "str", "repr", "type", "filter", "map", "round", "dict", "frozenset", "iter", "bool",
-    "next", "sum", "divmod", "callable", "pow", "getattr", "setattr", "hasattr",
+    "next", "sum", "divmod", "callable", "pow", "getattr", "setattr", "hasattr", "slice", "bytes", "bytearray",
 }
 _BUILTIN_EXC = {"ValueError", "IndexError", "KeyError", "TypeError", "Exception", "NotImplementedError", "AssertionError", "UnicodeError", "RuntimeError", "AttributeError"}
